@@ -7,6 +7,20 @@ ROOT = os.path.dirname(os.path.dirname(os.path.abspath(__file__)))
 D = os.path.join(ROOT, "notes", "mutation_sweep")
 
 NOTES = {  # file:line -> (class, note) for survivors read by hand
+    "join.go:84": ("caught-as-runaway", "every key is normalised to 0: the quick correspondence reports it; in the re-run the parallel-join stress stage then builds 2000 x 2000 cross products and exceeds the re-run's time limit"),
+    "join.go:493": ("caught-as-runaway", "as above: the key columns are lost, the stress stage degenerates into cross products"),
+    "join.go:576": ("caught-as-runaway", "as above"),
+    "join.go:580": ("caught-as-runaway", "as above"),
+    "join.go:517": ("equivalent-on-claim", "the error of extractColumnsFromExpr cannot occur for a column reference; the branch is reached only when both columns belong to the right side"),
+    "join.go:475": ("gap-closed", "hashJoinAnalyze && -> ||: an equality next to order comparisons under AND was generated too rarely; a dedicated stream was added and catches it"),
+    "join.go:479": ("outside-claim", "only reached for a bare column / call as an ON conjunct, which C04 does not generate (ON is built from column comparisons)"),
+    "plsql.go:688": ("equivalent", "a leading dot in a selector is an empty first step that the reader skips: `.n1` reads like `n1`"),
+    "plsql.go:340": ("equivalent", "after a successful evaluation the memo answers before the guard is consulted; after a failed one the second read is an error either way"),
+    "plsql.go:1423": ("outside", "AWAIT (not modelled)"),
+    "plsql.go:1427": ("outside", "AWAIT (not modelled)"),
+    "processors.go:84": ("equivalent", "continue at the end of the loop body"),
+    "sanitizer/sanitizer.go:201": ("equivalent", "an empty trailing part changes neither the parts that carry placeholders nor the joined text"),
+    "sanitizer/sanitizer.go:302": ("equivalent-on-claim", "drops a one-byte tail after an unterminated e'...' literal at end of input: the template is not parseable SQL either way"),
     "compare/compare.go:95": ("equivalent", "equal magnitudes are answered by the case before"),
     "compare/compare.go:140": ("equivalent", "a byte converts to float64 exactly: the float path gives the same order"),
     "compare/compare.go:118": ("equivalent-on-claim", "non-negative int through the float path: differs only beyond 2^53 against another int; the domain now holds such neighbours (caught on re-run)"),
@@ -82,10 +96,11 @@ def main():
         if r["status"] in ("survived", "timeout"):
             k, note = classify(r)
             cls[k].append((r, note))
-    names = {"equivalent": "Equivalent mutants (same observable behaviour)", "equivalent-on-claim": "Same behaviour on everything a property speaks about",
+    names = {"caught-as-runaway": "Caught, but as a runaway computation in a stage (counted as survived by the tool)", "gap-closed": "Real gaps, closed since",
+             "equivalent": "Equivalent mutants (same observable behaviour)", "equivalent-on-claim": "Same behaviour on everything a property speaks about",
              "outside-claim": "Behaviour the property text excludes", "outside": "Code outside every model (features listed as not modelled)", "OPEN": "Open (not classified)"}
     out.append("## Survivors by class\n")
-    for k in ("equivalent", "equivalent-on-claim", "outside-claim", "outside", "OPEN"):
+    for k in ("gap-closed", "caught-as-runaway", "equivalent", "equivalent-on-claim", "outside-claim", "outside", "OPEN"):
         out.append("### %s: %d\n" % (names[k], len(cls[k])))
         for r, note in sorted(cls[k], key=lambda x: (x[0]["file"], x[0]["line"])):
             out.append("* `%s:%d` %s — `%s` => `%s`%s" % (r["file"], r["line"], r["func"], r["old"][:70], r["new"][:70], (" — " + note) if note else ""))
